@@ -86,9 +86,9 @@ Cases == {[c |-> "eq", kind |-> k] : k \in StructuralKinds \cup AnnotationKinds 
          \cup {[c |-> "gate", kind |-> k, target |-> t, plugin |-> p, position |-> pos] :
                  k \in BadKinds, t \in Targets, p \in Plugins, pos \in {"only", "first", "last"}}
          \cup {[c |-> "eqg", def |-> dn, key |-> ky, op |-> o] : dn \in Defs, ky \in UNION {KeysOf(x) : x \in Defs}, o \in GOps}
-         \cup {[c |-> "load", files |-> n] : n \in {"full", "trimmed", "two", "three", "extension", "zoo", "zoo_ascii_locale"}}
+         \cup {[c |-> "load", files |-> n] : n \in {"full", "trimmed", "two", "three", "extension", "zoo", "zoo_ascii_locale", "zoo_twice"}}
          \* several operations on the SAME in-memory documents in one process: Load; Load; Eq; Load(first only)
-         \cup {[c |-> "session", files |-> n] : n \in {"two", "three", "extension"}}
+         \cup {[c |-> "session", files |-> n] : n \in {"two", "three", "extension", "zoo_twice"}}
 Init == svCase \in Cases /\ svL = 0
 Next == UNCHANGED <<svCase, svL>>
 CaseOK(c) == c.c = "eqg" => c.key \in KeysOf(c.def)
